@@ -185,7 +185,7 @@ def run(chk):
     if model_ok:
         def nlit(v, other=None):
             k, c, m, e = enc_num(v)
-            if other is not None and k < 2 and enc_num(other)[0] >= 2 and enc_num(other)[1] in (0, 4):
+            if other is not None and k < 2 and enc_num(other)[0] >= 2:
                 # modelled external: get_operands / Python turn the exact operand into the nearest double
                 # (XPath numeric promotion); the kind tag stays, the value is that double's
                 _, c, m, e = enc_num(float(v))
@@ -222,13 +222,18 @@ def run(chk):
                 sp = ('err', sp[1]) if sp[0] == 1 else ('val',) + canon(tuple(sp[1:]))
                 ta, tb = enc_num(a), enc_num(b)
                 finite = ta[1] == 0 and tb[1] == 0 and tb[2] != 0
-                has_spec = op in (0, 1, 2, 6) or finite
+                has_spec = op in (0, 1, 2, 3, 4, 6) or finite
                 if got != mo:
                     chk.corr_fail.append((desc, got, mo))
+                if sp == ('err', 3) and got in (('err', 1), ('err', 2)):
+                    sp = got        # INF idiv 0, NaN idiv 0: both error conditions hold
                 if has_spec and got != sp:
                     if (op == 6 and got == mo and got[0] == 'val' and sp[0] == 'val' and got[2:] == sp[2:]
                             and got[1] == 3 and sp[1] == 2):
                         chk.known('C06-div-zero-result-type', desc | {'impl': got, 'spec': sp})
+                    elif (op == 4 and got == mo and got[0] == 'val' and sp[0] == 'val' and got[2] == sp[2] == 1
+                            and got[1] == 3 and sp[1] == 2 and tb[1] in (0, 4) and tb[2] == 0):
+                        chk.known('C06-mod-nan-result-type', desc | {'impl': got, 'spec': sp})
                     else:
                         chk.violation('impl-vs-spec', desc, {'impl': got, 'spec': sp, 'model': mo})
                 if finite or op == 6:
